@@ -11,7 +11,7 @@ import traceback
 class Outcome:
     """Result of evaluating one case spec."""
 
-    __slots__ = ("violations", "nontrivial", "classes", "stats")
+    __slots__ = ("violations", "nontrivial", "classes", "stats", "__dict__")
 
     def __init__(self, violations=None, nontrivial=False, classes=(), stats=None):
         self.violations = list(violations or [])
